@@ -68,3 +68,27 @@ package validators
 //@   requires val != nil ==> val.totalStake != nil
 //@   ensures dropped: val != nil ==> val.toDrop && val.totalStake != nil && val.totalStake.val == 0
 //@   ensures unknownvalidator: val == nil ==> allof(Validator.toDrop) == old(allof(Validator.toDrop))
+
+//@ # ---------------------------------------------------------------- accrued rewards (C01, C19)
+//@ # the accrued reward is a base-coin holding: every change is reported to the ledger with the same amount
+//@ func (*Validator).SetAccumReward
+//@   serves C01 C19
+//@   requires v != nil && v.bus != nil && v.accumReward != nil && value != nil
+//@   ensures set: v.accumReward != nil && v.accumReward.val == old(value.val)
+//@   ensures reported: ledgerDelta(v.bus.checker, 0) == old(ledgerDelta(v.bus.checker, 0)) + old(value.val) - old(v.accumReward.val)
+//@   ensures othercoins: forall k types.CoinID :: k != 0 ==> ledgerDelta(v.bus.checker, k) == old(ledgerDelta(v.bus.checker, k))
+//@ func (*Validator).AddAccumReward
+//@   serves C01 C19
+//@   requires v != nil && v.bus != nil && v.accumReward != nil && amount != nil
+//@   ensures added: v.accumReward != nil && v.accumReward.val == old(v.accumReward.val) + old(amount.val)
+//@   ensures reported: ledgerDelta(v.bus.checker, 0) == old(ledgerDelta(v.bus.checker, 0)) + old(amount.val)
+//@ func (*Validator).GetAccumReward
+//@   serves C19
+//@   requires v != nil && v.accumReward != nil
+//@   ensures copy: result != nil && fresh(result) && result.val == v.accumReward.val
+//@   modifies nothing
+//@ func (*Validator).GetTotalBipStake
+//@   serves C19
+//@   requires v != nil && v.totalStake != nil
+//@   ensures copy: result != nil && fresh(result) && result.val == v.totalStake.val
+//@   modifies nothing
